@@ -215,7 +215,8 @@ def _media(ctx, i, kind, ncodecs, extras):
         m.ice_candidates = [_candidate(ctx, tag + "c0_", "raddr")]
         m.ice_candidates_complete = pick(ctx, tag + "eoc", [False, True])
     m.dtls = RTCDtlsParameters(
-        fingerprints=[RTCDtlsFingerprint(algorithm="sha-256", value=_tok(ctx, tag + "fp"))],
+        # one, two or (a role alone is structurally valid too) no fingerprint
+        fingerprints=[RTCDtlsFingerprint(algorithm=a, value=_tok(ctx, tag + "fp" + a[-3:])) for a in pick(ctx, tag + "fps", [["sha-256"], ["sha-256", "sha-384"], []])],
         role=pick(ctx, tag + "role", ["auto", "client", "server"]),
     )
     return m
@@ -249,8 +250,10 @@ def _media_eq(ctx, a, b, where):
     ctx.check(len(a.ice_candidates) == len(b.ice_candidates), where + "-candidate-count")
     for x, y in zip(a.ice_candidates, b.ice_candidates):
         ctx.check(_cand_eq(x, y), where + "-candidate")
-    ctx.check(sx.deep_eq([(f.algorithm, f.value) for f in a.dtls.fingerprints], [(f.algorithm, f.value) for f in b.dtls.fingerprints]), where + "-fingerprints")
-    ctx.check(a.dtls.role == b.dtls.role, where + "-dtls-role")
+    ctx.check(b.dtls is not None, where + "-dtls-parameters-present")
+    if b.dtls is not None:
+        ctx.check(sx.deep_eq([(f.algorithm, f.value) for f in a.dtls.fingerprints], [(f.algorithm, f.value) for f in b.dtls.fingerprints]), where + "-fingerprints")
+        ctx.check(a.dtls.role == b.dtls.role, where + "-dtls-role")
     ctx.check(sx.deep_eq(a.sctpCapabilities, b.sctpCapabilities), where + "-max-message-size")
     ctx.check(sx.deep_eq(list(a.sctpmap.items()), list(b.sctpmap.items())), where + "-sctpmap")
 
@@ -326,5 +329,5 @@ HARNESSES = {
     "fmtp-spacing": Harness("fmtp-spacing", h_fmtp_spacing, lambda tier: [{"n": n, "variant": v} for n in (2, 3) for v in range(2)], style="DIFF (two spellings)", bounds="fmtp lists of 2..3 parameters (names from the H.264 / RTX set, integer values symbolic 0..255, token values 2 symbolic letters) written with ';' and with '; '; plus untidy lists (separator from {';', '; ', '; ;', ';;', ' ; '}, tail from {'', ';', '; ', ' ;', '; ;', ';;'}) for the fixed-point check", encoded=["aiortc.sdp:parameters_from_sdp", "aiortc.sdp:parameters_to_sdp"], stubs=STUBS, outside=OUT, twin="fmtp-parsed"),
     "signaling": Harness("signaling", h_signaling, lambda tier: [{"kind": k, "variant": v} for k in ("plain", "all") for v in range(3 if tier == "quick" else 6)], style="RT", bounds="candidates as in the candidate harness (IPv4 and IPv6 addresses) through contrib.signaling object_to_string/object_from_string", encoded=["aiortc.contrib.signaling:object_to_string", "aiortc.contrib.signaling:object_from_string"] + ENC, stubs=STUBS + ["json.dumps/loads -> lossless stand-in (the JSON text is not modelled)"], outside=OUT, twin="signalled"),
     "candidate": Harness("candidate", h_candidate, lambda tier: [{"kind": k, "variant": v} for k in ("plain", "raddr", "tcptype", "all") for v in range(6)], style="RT", bounds="all integer fields symbolic over their full range (lazy decimal atoms), foundation 2 symbolic letters, ip/protocol/type/tcptype from small sets, with and without raddr/rport/tcptype", encoded=ENC, stubs=STUBS, outside=OUT, twin="candidate-parsed"),
-    "description": Harness("description", h_description, _desc_jobs, style="RT", bounds="<=2 media sections (audio/video/application, both SCTP syntaxes), <=2 codecs with symbolic payload type / clock rate / channels / fmtp int, str and flag-like parameters / <=2 feedback entries, header extension, 2 SSRCs + cname + FID group, ICE ufrag/pwd/options, one candidate, end-of-candidates, fingerprint, setup role, sctp-port, max-message-size, BUNDLE and WMS groups, session and media c= lines", encoded=ENC, stubs=STUBS, outside=OUT, twin="parsed", opts={"samples": 1}),
+    "description": Harness("description", h_description, _desc_jobs, style="RT", bounds="<=2 media sections (audio/video/application, both SCTP syntaxes), <=2 codecs with symbolic payload type / clock rate / channels / fmtp int, str and flag-like parameters / <=2 feedback entries, header extension, 2 SSRCs + cname + FID group, ICE ufrag/pwd/options, one candidate, end-of-candidates, 0..2 fingerprints, setup role, sctp-port, max-message-size, BUNDLE and WMS groups, session and media c= lines", encoded=ENC, stubs=STUBS, outside=OUT, twin="parsed", opts={"samples": 1}),
 }
